@@ -184,6 +184,13 @@ module Z =
     | Gt -> m
     | _ -> n
 
+  (** val abs_N : coq_Z -> coq_N **)
+
+  let abs_N = function
+  | Z0 -> N0
+  | Zpos p -> Npos p
+  | Zneg p -> Npos p
+
   (** val to_nat : coq_Z -> nat **)
 
   let to_nat = function
